@@ -664,6 +664,9 @@ def c17_index_keys(tier="quick", seed=0):
             if rname in ("array", "empty-array"):
                 probes.append(("in", f"var a = {rjs}; {kjs} in a", is_elem or ktext == "length"))
                 probes.append(("hasOwnProperty", f"var a = {rjs}; a.hasOwnProperty({kjs})", is_elem or ktext == "length"))
+                probes.append(("keys-agree", f"var a = {rjs}; Object.keys(a).indexOf({kjs}) >= 0", is_elem and isinstance(_j.loads(kjs) if kjs.startswith('"') else None, str)))
+                if not is_elem and ktext != "length":
+                    probes.append(("delete-non-element", f"var a = {rjs}; var d = delete a[{kjs}]; d + '|' + a.join() + '|' + a.length", "true|" + ",".join(str(e) for e in elems) + "|" + str(len(elems))))
                 if idx is None and ktext not in ("length",):
                     # writing a non-index key never touches the elements
                     probes.append(("write-non-index", f"var a = {rjs}; try {{ a[{kjs}] = 99; }} catch (e) {{ }} a.join() + '|' + a.length", ",".join(str(e) for e in elems) + "|" + str(len(elems))))
